@@ -738,6 +738,26 @@ pub fn cmd_selftest(args: &[String]) -> i32 {
                 i += stride;
             }
             let _ = std::fs::remove_dir_all(crate::framework::sandbox_base());
+            if std::env::var_os("SIM_COUNT_SYSCALLS").is_some() {
+                // kernel entries made through the interposers' pass-through, by syscall; the line itself is
+                // one more write(2), counted here so the figure matches strace's for the whole process
+                use std::io::Write as _;
+                let c = |n: libc::c_long| crate::seams::raw_count(n);
+                let line = format!(
+                    "RAWCOUNT write={} writev={} pwrite64={} ftruncate={} fsync={} fdatasync={} rename={} link={} unlink={} mkdir={}\n",
+                    c(libc::SYS_write) + 1,
+                    c(libc::SYS_writev),
+                    c(libc::SYS_pwrite64),
+                    c(libc::SYS_ftruncate),
+                    c(libc::SYS_fsync),
+                    c(libc::SYS_fdatasync),
+                    c(libc::SYS_rename) + c(libc::SYS_renameat) + c(libc::SYS_renameat2),
+                    c(libc::SYS_link) + c(libc::SYS_linkat),
+                    c(libc::SYS_unlink) + c(libc::SYS_unlinkat) + c(libc::SYS_rmdir),
+                    c(libc::SYS_mkdir) + c(libc::SYS_mkdirat),
+                );
+                let _ = std::io::stderr().write_all(line.as_bytes());
+            }
             0
         }
         _ => {
